@@ -112,6 +112,17 @@ def gen(ctx):
             if rng.random() < 0.3:
                 plan.append(fail_cfr(rng.choice([0, 1, 2, 3]), rng.choice([38, 18, 1])))
             cases.append(Case(size, driver=driver, workers=rng.choice([1, 2, 4]), bs=bs, plan=plan, label="random plan"))
+    # extent mapping that disagrees with what read() sees: a region reserved with fallocate and written through the page cache
+    # is flagged `unwritten` until writeback; whether the kernel offers an extent map at all (FIEMAP EOPNOTSUPP) or flags
+    # its extents this way must not change the bytes that arrive
+    MiB_ = 1 << 20
+    for driver in ("parfile", "parblock"):
+        for fiemap_ok in (True, False):
+            c = Case(8 * MiB_, data=[(MiB_, MiB_ + 300001)], driver=driver, workers=rng.choice([1, 2, 4]), bs=rng.choice([65536, "noprogress"]),
+                     reflink="never", prior="absent",
+                     plan=([] if fiemap_ok else [("fail", 95, 0, "ioctl", 0, "{src}")]), label="preallocated, written, not yet synced")
+            c.prealloc = [(MiB_, 300001)]
+            cases.append(c)
     return cases
 
 
